@@ -163,6 +163,10 @@ pub struct QCtx {
     pub res: Vec<(usize, Obs, Option<u64>, usize)>,
     pub entry_none: Vec<(usize, usize)>,
     pub subs: Vec<SubObs>,
+    /// Result of a parallel `count()` (only the number of results is known).
+    pub counted: Option<usize>,
+    /// The consumer may stop early: the items are a subset of the expected results.
+    pub subset: bool,
     cur: Item,
     cur_target: usize,
     cur_sub: usize,
@@ -183,6 +187,8 @@ impl QCtx {
             res: Vec::new(),
             entry_none: Vec::new(),
             subs: Vec::new(),
+            counted: None,
+            subset: false,
             cur: Item::default(),
             cur_target: 0,
             cur_sub: 0,
@@ -353,4 +359,145 @@ pub fn parts(id: Identifier) -> (usize, u64) {
 }
 pub fn ident(p: (usize, u64)) -> Identifier {
     brood::verif::identifier_from_parts(p.0, p.1)
+}
+
+// ---------------------------------------------------------------------------------------------
+// Parallel observation context (C09): shared by the closures of one parallel iteration.
+
+use std::sync::atomic::{AtomicU64, AtomicUsize, Ordering};
+use std::sync::Mutex;
+
+pub struct ParCtx {
+    pub write: bool,
+    fresh: AtomicU64,
+    pub uniform: u64,
+    items: Mutex<Vec<Item>>,
+    threads: Mutex<std::collections::HashSet<std::thread::ThreadId>>,
+    /// Perturbation: every n-th item yields / spins (0 = never).
+    pub jitter: u64,
+    seen: AtomicUsize,
+    /// For `find_any`: stop (return true) at the n-th observed item.
+    pub stop_at: usize,
+}
+
+impl ParCtx {
+    pub fn new(write: bool, fresh_base: u64, uniform: u64, jitter: u64, stop_at: usize) -> Self {
+        ParCtx {
+            write,
+            fresh: AtomicU64::new(fresh_base),
+            uniform,
+            items: Mutex::new(Vec::new()),
+            threads: Mutex::new(Default::default()),
+            jitter,
+            seen: AtomicUsize::new(0),
+            stop_at,
+        }
+    }
+    pub fn item(&self) -> ParItem<'_> {
+        let n = self.seen.fetch_add(1, Ordering::Relaxed);
+        if self.jitter > 0 && (n as u64) % self.jitter == 0 {
+            if n % 3 == 0 {
+                std::thread::yield_now();
+            } else {
+                for _ in 0..200 {
+                    std::hint::spin_loop();
+                }
+            }
+        }
+        ParItem { cx: self, cur: Item::default(), n }
+    }
+    pub fn push(&self, it: Item) {
+        self.items.lock().unwrap().push(it);
+        self.threads.lock().unwrap().insert(std::thread::current().id());
+    }
+    pub fn take_items(&self) -> Vec<Item> {
+        std::mem::take(&mut *self.items.lock().unwrap())
+    }
+    pub fn threads_seen(&self) -> usize {
+        self.threads.lock().unwrap().len()
+    }
+    pub fn fresh_end(&self) -> u64 {
+        self.fresh.load(Ordering::Relaxed)
+    }
+}
+
+pub struct ParItem<'a> {
+    cx: &'a ParCtx,
+    cur: Item,
+    n: usize,
+}
+
+impl<'a> ParItem<'a> {
+    fn new_val<P: Payload>(&self) -> u64 {
+        if P::IDENT {
+            self.cx.fresh.fetch_add(1, Ordering::Relaxed)
+        } else {
+            P::norm(self.cx.uniform)
+        }
+    }
+    pub fn see_id(&mut self, id: Identifier) {
+        self.cur.id = Some(id);
+    }
+    pub fn see<P: Payload>(&mut self, k: usize, p: &P) {
+        let o = p.obs("par view &");
+        self.cur.comps.push(CompObs { k, old: Some(o), new: None, addr: p.addr(), mutable: false });
+    }
+    pub fn see_mut<P: Payload>(&mut self, k: usize, p: &mut P) {
+        let o = p.obs("par view &mut");
+        let addr = p.addr();
+        let new = if self.cx.write {
+            let v = self.new_val::<P>();
+            p.set(v);
+            Some(v)
+        } else {
+            None
+        };
+        self.cur.comps.push(CompObs { k, old: Some(o), new, addr, mutable: true });
+    }
+    pub fn see_opt<P: Payload>(&mut self, k: usize, p: Option<&P>) {
+        match p {
+            Some(p) => self.see(k, p),
+            None => self.cur.comps.push(CompObs { k, old: None, new: None, addr: 0, mutable: false }),
+        }
+    }
+    pub fn see_opt_mut<P: Payload>(&mut self, k: usize, p: Option<&mut P>) {
+        match p {
+            Some(p) => self.see_mut(k, p),
+            None => self.cur.comps.push(CompObs { k, old: None, new: None, addr: 0, mutable: true }),
+        }
+    }
+    /// Finish: the item itself (for `map`), also telling whether `find_any` should stop here.
+    pub fn done(self) -> (Item, bool) {
+        let stop = self.n + 1 >= self.cx.stop_at;
+        (self.cur, stop)
+    }
+    pub fn finish(self) -> bool {
+        let cx = self.cx;
+        let (it, stop) = self.done();
+        cx.push(it);
+        stop
+    }
+}
+
+/// How a parallel iterator is consumed.
+#[derive(Clone, Copy, Debug, PartialEq, Eq)]
+pub enum Consumer {
+    ForEach,
+    MapCollect,
+    Count,
+    AnyFalse,
+    FindAny,
+}
+pub const CONSUMERS: [Consumer; 5] = [Consumer::ForEach, Consumer::MapCollect, Consumer::Count, Consumer::AnyFalse, Consumer::FindAny];
+
+/// Parallel members of a rig (subset of `Rig::QUERIES`, same indices).
+pub trait ParRig: Rig {
+    const NPAR: usize;
+    /// `par_query` of query `qi` consumed by `consumer`; `qcx` receives resource / entry
+    /// observations; returns the `count()` for `Consumer::Count`.
+    fn run_par_query(w: &mut W<Self>, qi: usize, cx: &ParCtx, qcx: &mut QCtx, consumer: Consumer) -> usize;
+    /// `run_par_system` with a `ParSystem` over the same views (for_each body).
+    fn run_par_system(w: &mut W<Self>, qi: usize, cx: &ParCtx, qcx: &mut QCtx);
+    /// `run_system` with a `System` over the same views.
+    fn run_system(w: &mut W<Self>, qi: usize, qcx: &mut QCtx);
 }
